@@ -116,25 +116,47 @@ class VisitorFacts(object):
         return self._inlined[id(h)] if h is not None else None
 
     def _inline_delegation(self, h):
-        """a handler whose whole body hands the node to another method of the visitor (`self.helper(node, [node.elt])`) is read as that
-        method with the arguments put in place of its parameters (one level; the rules look at what is done with `node.<field>`)"""
+        """a handler that hands the node to another method of the visitor (`self.helper(node, [node.elt])`, possibly between other
+        statements: a namespace pushed before and popped in a `finally`) is read as that method's body, with the arguments put in place
+        of its parameters, spliced in where the call stands (one level; the rules look at what is done with `node.<field>`)"""
         from .index import FuncInfo
-        body = h.main_body
-        core = [s_ for s_ in body if not (isinstance(s_, ast.Expr) and isinstance(s_.value, ast.Constant))]
-        if len(core) != 1 or not isinstance(core[0], (ast.Expr, ast.Return)) or not isinstance(core[0].value, ast.Call):
-            return h
-        call = core[0].value
         pos = h.params()[0]
-        if not (isinstance(call.func, ast.Attribute) and isinstance(call.func.value, ast.Name) and pos and call.func.value.id == pos[0]):
+        if len(pos) < 2:
             return h
-        m = self.ci.methods.get(call.func.attr)
-        if m is None or m is h or call.func.attr in ('visit', 'generic_visit') or call.keywords or any(isinstance(a, ast.Starred) for a in call.args):
+        fresh_h = ast.parse(ast.unparse(h.node)).body[0]
+        sites = []
+        for par in ast.walk(fresh_h):
+            for field in ('body', 'orelse', 'finalbody'):
+                blk = getattr(par, field, None)
+                if not isinstance(blk, list):
+                    continue
+                for i, st in enumerate(blk):
+                    if isinstance(st, (ast.Expr, ast.Return)) and isinstance(st.value, ast.Call):
+                        call = st.value
+                        if isinstance(call.func, ast.Attribute) and isinstance(call.func.value, ast.Name) and call.func.value.id == pos[0] \
+                                and call.func.attr not in ('visit', 'generic_visit') and call.func.attr in self.ci.methods \
+                                and self.ci.methods[call.func.attr] is not h and call.args and norm(call.args[0]) == pos[1]:
+                            sites.append((blk, i, call))
+        if len(sites) != 1:
+            return h
+        blk, i, call = sites[0]
+        m = self.ci.methods[call.func.attr]
+        if any(isinstance(a_, ast.Starred) for a_ in call.args) or any(k.arg is None for k in call.keywords):
             return h
         mpos = m.params()[0]
-        if len(call.args) != len(mpos) - 1 or m.params()[1] or m.params()[3]:
+        if m.params()[1] or m.params()[3]:
             return h
         subst = dict(zip(mpos[1:], call.args))
+        for k in call.keywords:
+            if k.arg not in mpos[1:] or k.arg in subst:
+                return h
+            subst[k.arg] = k.value
+        if set(subst) != set(mpos[1:]):
+            return h
         fresh = ast.parse(ast.unparse(m.node)).body[0]
+        stored = set(n.id for n in ast.walk(fresh) if isinstance(n, ast.Name) and isinstance(n.ctx, ast.Store))
+        if stored & set(subst):
+            return h          # the helper rebinds a parameter: not a plain substitution
 
         class Sub(ast.NodeTransformer):
             def visit_Name(self, n):
@@ -143,25 +165,29 @@ class VisitorFacts(object):
                 if n.id == mpos[0]:
                     n.id = pos[0]
                 return n
-        stored = set(n.id for n in ast.walk(fresh) if isinstance(n, ast.Name) and isinstance(n.ctx, ast.Store))
-        if stored & set(subst):
-            return h          # the helper rebinds a parameter: not a plain substitution
         fresh = Sub().visit(fresh)
-        fresh.name = h.node.name
-        fresh.args = ast.parse(ast.unparse(h.node)).body[0].args
-        ast.fix_missing_locations(fresh)
-        for par in ast.walk(fresh):
-            for ch in ast.iter_child_nodes(par):
-                ch._parent = par
-        fresh._parent = getattr(h.node, '_parent', None)
+        body = [s_ for s_ in fresh.body if not (isinstance(s_, ast.Expr) and isinstance(s_.value, ast.Constant))]
         # positions: those of the helper, which is where the code is
         off = m.node.lineno - 1
-        for n in ast.walk(fresh):
+        for s_ in body:
+            for n in ast.walk(s_):
+                if hasattr(n, 'lineno'):
+                    n.lineno += off
+                if getattr(n, 'end_lineno', None) is not None:
+                    n.end_lineno += off
+        off_h = h.node.lineno - 1
+        for n in ast.walk(fresh_h):
             if hasattr(n, 'lineno'):
-                n.lineno += off
+                n.lineno += off_h
             if getattr(n, 'end_lineno', None) is not None:
-                n.end_lineno += off
-        return FuncInfo(h.module, h.qualname, fresh, cls=h.cls, parent=h.parent)
+                n.end_lineno += off_h
+        blk[i:i + 1] = body
+        ast.fix_missing_locations(fresh_h)
+        for par in ast.walk(fresh_h):
+            for ch in ast.iter_child_nodes(par):
+                ch._parent = par
+        fresh_h._parent = getattr(h.node, '_parent', None)
+        return FuncInfo(h.module, h.qualname, fresh_h, cls=h.cls, parent=h.parent)
 
     def reads_field(self, fi, field):
         nodep = fi.params()[0][1] if len(fi.params()[0]) > 1 else None
@@ -1909,9 +1935,10 @@ def rule_attribute_handler(check, rule, precision=False):
         return
     check.analysed(h)
     selfn, nodep = h.params()[0][0], h.params()[0][1]
+    from .callgraph import resolve_once
     visits_value = [c for c in ast.walk(h.node) if isinstance(c, ast.Call) and isinstance(c.func, ast.Attribute) and isinstance(c.func.value, ast.Name)
-                    and c.func.value.id == selfn and ((c.func.attr == 'visit' and c.args and norm(c.args[0]) == '%s.value' % nodep)
-                                                      or (c.func.attr == 'generic_visit' and c.args and norm(c.args[0]) == nodep))]
+                    and c.func.value.id == selfn and ((c.func.attr == 'visit' and c.args and norm(resolve_once(h.node, c.args[0])) == '%s.value' % nodep)
+                                                      or (c.func.attr == 'generic_visit' and c.args and norm(resolve_once(h.node, c.args[0])) == nodep))]
     taints = [a for a in ast.walk(h.node) if isinstance(a, ast.Assign) and any(isinstance(t, ast.Attribute) and t.attr == 'tainted' for t in a.targets)]
     problems = []
     if not visits_value:
@@ -1988,3 +2015,55 @@ def rule_attribute_object_once(check, rule):
                         'node to visit_Attribute, which traverses the object again: callee(*args, **kwargs).method() is recorded twice and every '
                         'source is listed twice', key=key,
                         witness="def w(a, *args, **kwargs): return callee(*args, **kwargs).strip()  -- sources['y'] == [callee, callee]")
+
+
+def rule_every_operand_visited(check, rule):
+    """C05.R12 (D60): a call with more than one `*` (or `**`) operand forwards none of them as it is -- `get_starargs`/`get_kwargs` answer
+    with an Unknown holding the operands -- but each operand is evaluated: what it does to the names (`strip(kwargs)`), or a forwarding
+    call inside it, counts.  resolve_name does not visit an Unknown, so process_Call visits the operands itself."""
+    repo = check.repo
+    m = repo.module('_autoforwards')
+    pc = repo.func(VIS + '.process_Call')
+    check.analysed(pc)
+    wraps_unknown = []
+    for name in ('get_starargs', 'get_kwargs'):
+        for fi in m.funcs.values():
+            if fi.name == name and any(isinstance(c, ast.Call) and norm(c.func) == 'Unknown' for c in ast.walk(fi.node)):
+                wraps_unknown.append(fi)
+                check.analysed(fi)
+    key = 'operands-visited|process_Call'
+    st = site_of(pc, pc.node)
+    if not wraps_unknown:
+        check.holds(rule, st, 'star operands are never wrapped into an Unknown: each is resolved (and visited) on its own', key=key)
+        return
+    selfn = pc.params()[0][0]
+    loops = [l for l in ast.walk(pc.node) if isinstance(l, ast.For) and isinstance(l.iter, ast.Attribute) and l.iter.attr == 'source'
+             and any(isinstance(c, ast.Call) and isinstance(c.func, ast.Attribute) and c.func.attr == 'visit' and isinstance(c.func.value, ast.Name)
+                     and c.func.value.id == selfn for c in ast.walk(l))]
+    if loops:
+        check.holds(rule, site_of(pc, loops[0]), 'the operands of several star arguments are visited one by one', key=key)
+    else:
+        check.violation(rule, st, 'with more than one * (or **) operand the operands are wrapped into an Unknown, which resolve_name neither resolves nor '
+                        'visits: what they do to the names, or a forwarding call inside one, goes unnoticed', key=key,
+                        witness="def f(*args, **kwargs):\n    log(**DEFAULTS, **strip(kwargs))\n    return inner(*args, **kwargs)")
+
+
+def rule_generator_expression_lazy(check, rule):
+    """C05.R13 (D60): the calls inside a generator expression run when it is consumed, after whatever the rest of the body does to the names:
+    `g = (inner(*args, **kwargs) for _ in xs); kwargs.pop('b'); list(g)`.  Its handler defers them like those of a nested function (it
+    opens a namespace of its own, so visit_Call puts them on the list that is processed at the end); handling it like a list comprehension
+    records them with the names as they are where the expression is written."""
+    vf = VisitorFacts(check.repo)
+    h = vf.handlers.get('GeneratorExp')
+    st0 = '%s:%d %s' % (vf.ci.module.relpath, vf.ci.node.lineno, vf.ci.key)
+    key = 'genexp-lazy'
+    if h is None:
+        check.violation(rule, st0, 'no handler for GeneratorExp: its calls are recorded where the expression is written', key=key)
+        return
+    check.analysed(h)
+    if vf.pushes_namespace(h):
+        check.holds(rule, site_of(h, h.node), 'visit_GeneratorExp opens a namespace of its own: the calls inside are deferred', key=key)
+    else:
+        check.violation(rule, site_of(h, h.node), 'visit_GeneratorExp handles the expression like an eager comprehension: a forwarding call inside it is '
+                        'recorded with the names as they are where it is written, although it runs when the generator is consumed', key=key,
+                        witness="g = (inner(*args, **kwargs) for _ in range(1)); kwargs.pop('b'); return list(g)")
